@@ -112,15 +112,22 @@ def make_root(root: Dict[str, Any]):
     return SamplerWrapper(EpochSampler(root["n"]))
 
 
-def make_sdl_nw0(hist: Dict[str, Any]):
+_sdl_classes: Dict[str, Any] = {}
+
+
+def _sdl_cls():
+    """Dataset / loader classes, defined once (new classes per call defeat the abc caches of isinstance)."""
+    if _sdl_classes:
+        return _sdl_classes
     import torch
     from torchdata.stateful_dataloader import StatefulDataLoader
 
-    n = hist["ds"]["n"]
-
     class MapDS(torch.utils.data.Dataset):
+        def __init__(self, n):
+            self.n = n
+
         def __len__(self):
-            return n
+            return self.n
 
         def __getitem__(self, i):
             return i
@@ -130,14 +137,15 @@ def make_sdl_nw0(hist: Dict[str, Any]):
         instead of fast-forwarding (exactness of the iterator is property C01, not this one); one object
         per iter(dataset), so abandoned iterators share nothing with later ones."""
 
-        def __init__(self):
+        def __init__(self, n):
+            self.n = n
             self.i = 0
 
         def __iter__(self):
             return self
 
         def __next__(self):
-            if self.i >= n:
+            if self.i >= self.n:
                 raise StopIteration
             self.i += 1
             return self.i - 1
@@ -149,8 +157,11 @@ def make_sdl_nw0(hist: Dict[str, Any]):
             self.i = sd["i"]
 
     class IterDS(torch.utils.data.IterableDataset):
+        def __init__(self, n):
+            self.n = n
+
         def __iter__(self):
-            return StatefulIt()
+            return StatefulIt(self.n)
 
     class Counting(StatefulDataLoader):
         created = 0
@@ -159,10 +170,17 @@ def make_sdl_nw0(hist: Dict[str, Any]):
             self.created += 1
             return super()._get_iterator()
 
-    ds = MapDS() if hist["ds"]["kind"] == "map" else IterDS()
+    _sdl_classes.update(MapDS=MapDS, IterDS=IterDS, Counting=Counting)
+    return _sdl_classes
+
+
+def make_sdl_nw0(hist: Dict[str, Any]):
+    c = _sdl_cls()
+    n = hist["ds"]["n"]
+    ds = c["MapDS"](n) if hist["ds"]["kind"] == "map" else c["IterDS"](n)
     with warnings.catch_warnings():
         warnings.simplefilter("ignore")
-        return Counting(ds, batch_size=hist["bs"], num_workers=0)
+        return c["Counting"](ds, batch_size=hist["bs"], num_workers=0)
 
 
 # (name, factory(history) -> StatefulDataLoader-like object with an optional `created` counter).  Multi-worker
@@ -599,9 +617,9 @@ def erase_peeks(hist):
     return dict(hist, ops=[op for op in hist["ops"] if op[0] != "peek"])
 
 
-def peek_transparent(hist) -> Tuple[bool, str]:
+def peek_transparent(hist, real=None) -> Tuple[bool, str]:
     """Real code: the observations other than those of the peeks are the same with and without the peeks."""
-    with_p = [o for op, o in zip(hist["ops"], run_real(hist)) if op[0] != "peek"]
+    with_p = [o for op, o in zip(hist["ops"], real if real is not None else run_real(hist)) if op[0] != "peek"]
     without = run_real(erase_peeks(hist))
     if with_p != without:
         k = first_diff(with_p, without)
@@ -658,7 +676,7 @@ def check_history(ctx: Ctx, hist: Dict[str, Any], reqs: List[Any], metas: List[A
         ctx.fail("api_history", hist, f"op {k} {hist['ops'][k] if k < len(hist['ops']) else '?'}: real code gives {real[k:k + 2]} "
                  f"but the reference gives {ref[k:k + 2]}")
     if any(op[0] == "peek" for op in hist["ops"]):
-        ok, msg = peek_transparent(hist)
+        ok, msg = peek_transparent(hist, real)
         ctx.case("ko_peek", hist, any(op[0] in ("next", "exhaust") for op in hist["ops"]))
         if not ok:
             ctx.fail("peek_transparency", hist, msg)
